@@ -71,9 +71,11 @@ TRUSTED_ENV_SOCKET = ("socket: sendall(b) appends b to the outbound log of the c
 TRUSTED_SERVER = ("RFC 5804 server: answers each complete command with exactly one response (OK / NO / BYE) or falls "
                   "silent; the script store changes only as the RFC says")
 TRUSTED_B64 = "base64.b64encode: uninterpreted injective function with output over [A-Za-z0-9+/=]"
-ASSUMED_GET_CAPABILITIES = ("ASSUMED contract of Client.__get_capabilities (not verified: its body splits lines of symbolic "
-                            "text): stores each announced known capability with its value, keeps the others, returns "
-                            "False on NO without changes")
+ASSUMED_GET_CAPABILITIES = ("contract of Client.__get_capabilities (stores each announced known capability with its value, "
+                            "keeps the others, returns False on NO without changes): DISCHARGED on listings of quoted names "
+                            "and quoted values (7 shapes, symbolic values; units K.*) and bounded-checked on all subsets of the "
+                            "known capabilities; ASSUMED for listings outside those shapes (values sent as literals, unquoted "
+                            "atoms)")
 
 
 def table_replay(cmd_name, drop_ext=None):
